@@ -6,5 +6,5 @@ const yieldBuilt = false
 
 type yieldState struct{}
 
-func installYield(seed uint64) *yieldState     { return nil }
+func installYield(seed uint64) *yieldState      { return nil }
 func (st *yieldState) stop() (fired, sites int) { return 0, 0 }
